@@ -123,7 +123,18 @@ def run(ctx):
     it.run(fp)
     geye = [r for r in it.calls if r.callee == "opticomlib.devices.GET_EYE"]
     thr = [r for r in it.calls if r.callee and r.callee.endswith(".THRESHOLD_EST")]
-    rths = [val for f, stmt, name, val, conds, depth in it.assign_log if depth == 0 and name == "rth"]
+    # the decision level by its role: the right-hand side of the slot decision `samples > level` in the returned chain
+    rths = []
+    outs_n = [o for o in it.outcomes if o.kind == "return"]
+    for o in outs_n:
+        a0 = o.value.single_atom() if isinstance(o.value, Form) else None
+        inner0 = a0[2][0].single_atom() if a0 and a0[0] == "fn" and a0[1] == "PPM_DECODER" and a0[2] and isinstance(a0[2][0], Form) else None
+        dec0 = inner0[2][0] if inner0 and inner0[0] == "fn" and inner0[1] == "HDD" and inner0[2] else None
+        d0 = dec0.fields.get("data") if isinstance(dec0, ObjV) else None
+        da0 = d0.single_atom() if isinstance(d0, Form) else None
+        if da0 and da0[0] == "fn" and da0[1] == "gt" and len(da0[2]) == 2 and isinstance(da0[2][1], Form):
+            # every value that can flow into the level (through the merge of the two sources and the |.| of the comparison)
+            rths.extend(Form.atom(x) for x in da0[2][1].atoms(deep=True))
     ok = len(geye) == 1 and len(thr) == 1 and thr[0].args[0] == geye[0].result and thr[0].args[1] == S("M")
     ok = ok and any(isinstance(x, Form) and x == Form.atom(("attr", geye[0].result, "threshold")) for x in rths) and any(x == thr[0].result for x in rths)
     samp = [r for r in it.calls if r.callee == "opticomlib.devices.SAMPLER"]
